@@ -267,7 +267,7 @@ def repo_suite_traces(prop, tier, rep):
     return out
 
 
-REJECTS = {"add_bond_badrole", "set_bond_badrole"}
+REJECTS = {"add_bond_badrole", "set_bond_badrole", "add_formed_badrole", "add_broken_badrole", "add_fleeting_badrole"}
 QUERY_NAMES = None
 
 
